@@ -57,6 +57,15 @@ let parse_op toks =
   | ["bholddel"; b] -> BHoldDel (n b)
   | _ -> raise (Bad (String.concat " " toks))
 
+(* fn_std, noting whether an argument or an intermediate product leaves the range in which int arithmetic cannot overflow *)
+let out_of_range = ref false
+let fn_range f args =
+  let big z = abs (int_of_z z) > 0x10000000 in
+  let ai = List.map int_of_z args in
+  if List.exists big args then out_of_range := true;
+  (match ai with a :: b :: _ when int_of_nat f < 100 && int_of_nat f mod 5 = 4 && abs (a * b) > 0x40000000 -> out_of_range := true | _ -> ());
+  fn_std f args
+
 let read_lines f =
   let ic = open_in f in
   let rec go acc = match input_line ic with
@@ -91,6 +100,7 @@ let run_file rtl f =
   let fuel = nat_of_int 40 in
   let w = ref world0 in
   let legal = ref true in
+  out_of_range := false;
   let mark = ref (footprint world0) in
   let hist = ref [] and before_mark = ref [] and since_mark = ref [] in
   let print_vals w' =
@@ -117,11 +127,13 @@ let run_file rtl f =
     | `Op (o, raw) ->
       hist := raw :: !hist; since_mark := raw :: !since_mark;
       let before = List.length !w.w_trace in
-      let w' = step fn_std rtl fuel !w o in
+      let w' = step fn_range rtl fuel !w o in
       let tr = w'.w_trace in
       let fresh = List.length tr - before in
       let rec firstn k l = if k = 0 then [] else match l with [] -> [] | x :: r -> x :: firstn (k - 1) r in
-      List.iter print_event (List.rev (firstn fresh tr));
+      (* the model computes in Z, Property<int> in int: a history whose values leave the range in which the harness's functions and the
+         library's operators cannot overflow is not a legal program from this operation on (`done range`: the check keeps the prefix) *)
+      if !out_of_range then print_string "done range\n" else List.iter print_event (List.rev (firstn fresh tr));
       print_vals w';
       (* lines starting with '#' are the model's own property checkers: not compared with the implementation *)
       (* pinv: the link invariant proved in coq/PropLinkOps.v, evaluated on this world as long as no operation so far was
